@@ -2,5 +2,5 @@ Require Extraction.
 Require Import ExtrOcamlBasic.
 From GoPdf.Base Require Import WireAnchor.
 From GoPdf.C02 Require Import Obj Dec Syntax Writer Stored Reader Expect Inst.
-Separate Extraction wire_anchor trace_concrete run_concrete expected expected_chain self_check norm
+Separate Extraction wire_anchor trace_concrete run_lenient run_concrete expected expected_chain self_check norm
   open_concrete get_concrete data_concrete observe eobs_eqb dict_sort strip_stream_keys.
